@@ -15,6 +15,7 @@ import (
 	"fmt"
 	"net/http"
 	"net/http/httptest"
+	"sync"
 	"testing"
 	"time"
 )
@@ -102,7 +103,42 @@ func TestVerifReplayC19(t *testing.T) {
 		h.Send("message", "after")
 		time.Sleep(100 * time.Millisecond)
 	}
-	fmt.Println("REPLAY-NOT-REPRODUCED bounded run: 5 rounds of (stalled client, 2 pending broadcasts, client write fails, 1 more broadcast) and 5 rounds of (client connected, broadcast, client cancels) without a crash")
+	// churn: clients connect and disconnect while broadcasts are issued back to back (1 s)
+	{
+		h := New()
+		stop := make(chan struct{})
+		var wg sync.WaitGroup
+		for g := 0; g < 8; g++ {
+			wg.Add(1)
+			go func() {
+				defer wg.Done()
+				for {
+					select {
+					case <-stop:
+						return
+					default:
+					}
+					ctx, cancel := context.WithCancel(context.Background())
+					done := make(chan struct{})
+					go func() {
+						h.ServeHTTP(httptest.NewRecorder(), httptest.NewRequest("GET", "/", nil).WithContext(ctx))
+						close(done)
+					}()
+					time.Sleep(time.Millisecond)
+					cancel()
+					<-done
+				}
+			}()
+		}
+		fmt.Println("round churn: 8 goroutines connect and disconnect clients while broadcasts are issued back to back")
+		deadline := time.Now().Add(time.Second)
+		for time.Now().Before(deadline) {
+			h.Send("message", "reload")
+		}
+		close(stop)
+		wg.Wait()
+	}
+	fmt.Println("REPLAY-NOT-REPRODUCED bounded run: 5 rounds of (stalled client, 2 pending broadcasts, client write fails, 1 more broadcast), 5 rounds of (client connected, broadcast, client cancels) and 1 s of client churn under back-to-back broadcasts without a crash")
 }
 `
 
@@ -116,7 +152,7 @@ func replayC19(r *Run, o *Obligation) *ReplayResult {
 		r.replayOut["C19"] = out
 	}
 	input := "the real sse.Handler: a stalled client, broadcasts pending on it, then the client's write fails"
-	for _, p := range []string{"panic: send on closed channel", "panic: close of closed channel", "panic: close of nil channel"} {
+	for _, p := range []string{"panic: send on closed channel", "panic: close of closed channel", "panic: close of nil channel", "fatal error: concurrent map iteration and map write", "fatal error: concurrent map read and map write", "fatal error: concurrent map writes"} {
 		if strings.Contains(out, p) {
 			where := ""
 			lines := strings.Split(out, "\n")
